@@ -202,3 +202,37 @@ Example stream_example :
   split_frames 16 128000000 (bad ++ ok) = [bad; ok] /\
   read_stream 16 70013 0xe8f3e1e3 128000000 (bad ++ ok) = [FErr ETypeMax ok; FOk MVerAck [] []].
 Proof. vm_compute. auto. Qed.
+
+(* ---------- the overall limit ---------- *)
+
+Theorem header_oversize_refused : forall pver net ebs bs,
+  header_oversize ebs bs = true -> read_message pver net ebs bs = FErr EOversize (skipn 24 bs).
+Proof.
+  intros pver net ebs bs H. unfold header_oversize in H. apply andb_prop in H. destruct H as [H24 Hov].
+  apply N.leb_le in H24. apply N.ltb_lt in Hov. apply reject_oversize; assumption.
+Qed.
+
+Lemma varstring_count_over_err : forall mmp bs, varstring_count_over mmp bs = true -> dec_varstring mmp bs = Err EStrTooLong.
+Proof.
+  intros mmp bs H. unfold varstring_count_over in H. unfold dec_varstring.
+  destruct (dec_varint bs) as [[c r]|e]; [|discriminate]. cbn [bind]. rewrite H. reflexivity.
+Qed.
+
+Theorem string_rejected : forall k pver mmp bs,
+  string_over_limit k pver mmp bs = true -> dec_payload pver mmp k bs = Err EStrTooLong.
+Proof.
+  intros k pver mmp bs H. destruct k; cbn [string_over_limit] in H; try discriminate H.
+  apply andb_prop in H. destruct H as [Hpv H]. apply N.leb_le in Hpv.
+  cbn [dec_payload]. destruct (N.ltb_spec pver RejectVersion); [lia|]. unfold dec_reject.
+  apply orb_prop in H. destruct H as [H|H].
+  - rewrite (varstring_count_over_err _ _ H). reflexivity.
+  - destruct (dec_varstring mmp bs) as [[cmd r]|e]; [|discriminate]. cbn [bind].
+    destruct (read_le 1 r) as [[code r']|e]; [|discriminate]. cbn [bind].
+    rewrite (varstring_count_over_err _ _ H). reflexivity.
+Qed.
+
+Example string_rejected_example :
+  string_over_limit KReject 70013 268435456 [0xfe; 1; 0; 0; 0x10] = true /\
+  header_oversize 128000000 (le_enc 4 0xe8f3e1e3 ++ pad_cmd (cmd_bytes KReject) ++ le_enc 4 268435457 ++ [0;0;0;0]) = true.
+Proof. vm_compute. auto. Qed.
+
